@@ -237,6 +237,48 @@ theorem filled_cache_stays_valid' (s : St α) (c : List α) (hc : CacheOK s) (h 
     absT (run s ops) = some c :=
   absT_run ops s c (hc c h)
 
+/-! ### in-place processing (`modify`) -/
+
+theorem keepMask_map (f : α → α) (m : List Bool) (l : List α) : keepMask m (l.map f) = (keepMask m l).map f := by
+  induction m generalizing l with
+  | nil => cases l <;> simp [keepMask]
+  | cons b m ih =>
+    cases l with
+    | nil => cases b <;> simp [keepMask]
+    | cons a l => cases b <;> simp [keepMask, ih]
+
+theorem absT_modifyKeep (m : List Bool) (s : St α) : absT (modifyKeep m s) = (absT s).map (keepMask m) := by
+  obtain ⟨ref, t, cache⟩ := s
+  cases ref with
+  | none => simp [absT, modifyKeep]
+  | some r => simp [absT, modifyKeep, keepMask_map]
+
+theorem cacheOK_stepX (s : St α) (op : OpX α) (h : CacheOK s) : CacheOK (stepX s op) := by
+  cases op with
+  | base op => exact cacheOK_step s op h
+  | keep m => intro c hc; simp [stepX, modifyKeep] at hc
+
+theorem runX_cons (s : St α) (op : OpX α) (ops : List (OpX α)) : runX s (op :: ops) = runX (stepX s op) ops := rfl
+
+theorem cacheOK_runX (ops : List (OpX α)) (s : St α) (h : CacheOK s) : CacheOK (runX s ops) := by
+  induction ops generalizing s with
+  | nil => exact h
+  | cons op ops ih => rw [runX_cons]; exact ih _ (cacheOK_stepX s op h)
+
+theorem cache_consistent_x' (ops : List (OpX α)) (s : St α) (h : CacheOK s) :
+    CacheOK (runX s ops) ∧ (dtgTime (runX s ops)).2 = absT (runX s ops) :=
+  ⟨cacheOK_runX ops s h, dtgTime_eq_abs _ (cacheOK_runX ops s h)⟩
+
+/-- What `modify` does to the absolute instants: exactly those of the retained samples remain, unchanged and in order;
+re-referencing, copying and reading in between change none of them. -/
+theorem absT_stepX (s : St α) (l : List α) (h : absT s = some l) (op : OpX α) :
+    absT (stepX s op) = some (match op with | .base _ => l | .keep m => keepMask m l) := by
+  cases op with
+  | base op =>
+    have := absT_run [op] s l h
+    simpa [run, stepX] using this
+  | keep m => simp [stepX, absT_modifyKeep, h]
+
 /-! ### start / end -/
 
 theorem start_end' (s : St α) :
